@@ -411,7 +411,28 @@ func (p *Program) retarget(f *File, d *Def, text string, to *Def) {
 // injectInvalid makes the program uncompilable in one place.
 func (p *Program) injectInvalid() {
 	f := p.Files[ch("invalid.file", len(p.Files))]
-	switch ch("invalid.kind", 3) {
+	switch ch("invalid.kind", 6) {
+	case 3:
+		p.add(f, &Def{Kind: KConst, Name: p.name("C"), Type: &TypeRef{Base: "bool"}, Value: &ConstVal{Kind: CInt, Int: 2}})
+		p.Invalid = "bool constant 2 in " + f.RelPath()
+	case 4:
+		p.add(f, &Def{Kind: KConst, Name: p.name("C"), Type: &TypeRef{Base: "double"}, Value: &ConstVal{Kind: CString, Str: "1.5"}})
+		p.Invalid = "string literal for a double constant in " + f.RelPath()
+	case 5:
+		var enums []*Def
+		for _, d := range f.Defs {
+			if d.Kind == KEnum {
+				enums = append(enums, d)
+			}
+		}
+		if len(enums) == 0 {
+			p.add(f, &Def{Kind: KConst, Name: p.name("C"), Type: &TypeRef{Base: "i32"}, Value: &ConstVal{Kind: CBool, Bool: true}})
+			p.Invalid = "bool literal for an i32 constant in " + f.RelPath()
+			break
+		}
+		e := enums[ch("invalid.enum", len(enums))]
+		p.add(f, &Def{Kind: KConst, Name: p.name("C"), Type: &TypeRef{Ref: &Ref{e.File, e.Name}}, Value: &ConstVal{Kind: CInt, Int: 9999}})
+		p.Invalid = "integer that is no value of enum " + e.Name + " in " + f.RelPath()
 	case 0:
 		p.add(f, &Def{Kind: KStruct, Name: p.name("S"), Fields: []*FieldDef{{ID: 1, Name: "bad", Req: ReqOptional, Type: &TypeRef{Ref: &Ref{f.Index, "NoSuchType"}}}}})
 		p.Invalid = "unresolvable type reference in " + f.RelPath()
